@@ -9,6 +9,7 @@ import (
 	"path/filepath"
 	"runtime/debug"
 	"sort"
+	"syscall"
 	"testing"
 	"testing/synctest"
 	"time"
@@ -215,6 +216,11 @@ func finalizeStats(st *Stats, t0 time.Time, sitesHit bool) {
 // TestWsim is the entry point of a worker process.
 func TestWsim(t *testing.T) {
 	loadSites()
+	// address-space cap: an allocation out of proportion kills this worker
+	// with "fatal error: out of memory" instead of taking the machine down
+	var lim syscall.Rlimit
+	lim.Cur, lim.Max = 6<<30, 6<<30
+	syscall.Setrlimit(syscall.RLIMIT_AS, &lim)
 	if *flagTrace != "" {
 		replayMain(t)
 		return
@@ -248,6 +254,12 @@ func TestWsim(t *testing.T) {
 		r := newRng(seed)
 		sim := chooseSim(prop, r)
 		c := sim.Gen(prop, *flagTier, r)
+		if *flagOut != "" {
+			// journal: the case about to run, so that a worker killed by the
+			// runtime (out of memory, fatal error) is attributed to an exact case
+			jb, _ := json.Marshal(traceOf(prop, sim, seed, idx, c, &Env{}))
+			os.WriteFile(filepath.Join(*flagOut, fmt.Sprintf("journal-%d.json", *flagWorker)), jb, 0o644)
+		}
 		e := runOne(t, prop, *flagTier, seed, sim, c, st, nil, *flagLog)
 		if logf != nil {
 			fmt.Fprintf(logf, "run %d seed %d sim %s viol %v\n", idx, seed, sim.Name(), e.Viol)
